@@ -10,7 +10,8 @@ from concurrent.futures import ThreadPoolExecutor
 from .common import *   # noqa: F401,F403
 from . import instr_gen as ig
 
-RULE = ("a corpus of 30-40 chart texts (thorough: 250): valid charts sharing and not sharing resolutions / sustain tuples (so the memo tables hit across charts), a chart with > 128 distinct "
+RULE = ("[cold start] fresh interpreters whose very first parses run on 8 threads at once (barrier, 1 us switch interval) on a chart with 300 (thorough: 1000) star-power phrases, "
+        "every distinct result and a later sequential parse in the same process judged against the fresh sequential parse; " + "a corpus of 30-40 chart texts (thorough: 250): valid charts sharing and not sharing resolutions / sustain tuples (so the memo tables hit across charts), a chart with > 128 distinct "
         "sustain tuples (forces lru eviction), charts with many plain text events vs. charts with sections and lyrics, charts stating many optional [Song] fields vs. charts stating none, and "
         "charts of every failure class (missing section, bad header, MissingRequiredField, bad Player2 after other fields, forced first note, zero tempo, unordered tempo); "
         "(i) each text is parsed in a FRESH interpreter (one subprocess each); (ii) the texts are parsed in this process in random orders with repetitions (2-3 passes), failing texts "
@@ -24,12 +25,15 @@ VERDICT = "fun i o => parse_verdict cfg (snd i) o"
 SPEC = "fun i o => parse_eqb (fst i) o"
 
 
+REPO = os.environ.get("CHARTPARSE_REPO", "/repo")
+
+
 def fresh(texts):
     def one(itw):
         idx, (text, want) = itw
         # every fresh interpreter gets its own string-hash seed: the observation must not depend on it
         p = subprocess.run([sys.executable, os.path.join(VERIF, "tools", "fresh_parse.py")], input=json.dumps(dict(text=text, want=want)),
-                           capture_output=True, text=True, cwd="/repo", env=dict(os.environ, PYTHONPATH="/repo", PYTHONHASHSEED=str(1 + idx % 7)), timeout=300)
+                           capture_output=True, text=True, cwd=REPO, env=dict(os.environ, PYTHONPATH=REPO, PYTHONHASHSEED=str(1 + idx % 7)), timeout=300)
         if p.returncode != 0:
             return "(Err EOther)"
         return p.stdout
@@ -116,6 +120,28 @@ def threaded(items, fresh_terms):
     return results
 
 
+def big_chart(rng, n_phr):
+    """Many star-power phrases and notes, several tempo changes: every lazily filled table is exercised many times."""
+    body = []
+    for i in range(n_phr):
+        t = 100 * i
+        body += ["%d = S 2 %d" % (t, rng.choice([40, 60, 100])), "%d = N %d %d" % (t + 10, i % 5, rng.choice([0, 0, 30])), "%d = N %d 0" % (t + 70, (i + 2) % 5)]
+    sync = ["0 = TS 4", "0 = B 120000"] + ["%d = B %d" % (1000 * k, rng.choice([90000, 140000, 60000])) for k in range(1, 6)]
+    return chart_text(res=192, sync=sync, events=['0 = E "section a"', '500 = E "lyric b"'], tracks=[("ExpertSingle", body)])
+
+
+def cold_concurrent(items, n_interp, nthreads=8):
+    """n_interp fresh interpreters, each starting with nthreads concurrent parses of `items` (tools/cold_parse.py)."""
+    def one(k):
+        p = subprocess.run([sys.executable, os.path.join(VERIF, "tools", "cold_parse.py")], input=json.dumps(dict(items=items, threads=nthreads, rotate=bool(k % 2))),
+                           capture_output=True, text=True, cwd=REPO, env=dict(os.environ, PYTHONPATH=REPO, PYTHONHASHSEED=str(1 + k % 7)), timeout=900)
+        if p.returncode != 0:
+            return None
+        return json.loads(p.stdout)
+    with ThreadPoolExecutor(max_workers=4) as ex:
+        return list(ex.map(one, range(n_interp)))
+
+
 def run(ctx, only=None):
     rng = ctx["rng"]
     quick = ctx["tier"] == "quick"
@@ -152,7 +178,25 @@ def run(ctx, only=None):
                 if k < (3 if quick else 8):
                     cases.append(make(texts[i][0], texts[i][1], fr[i], row[j] or "(Err EOther)", "threads", pos))
                     pos += 1
-    return run_cases("C17", cases, IN_TYPE, PARSE_OUT, VERDICT, SPEC, shard_size=12)
+    # cold concurrent start: the first parses of a fresh process run on 8 threads at once; every distinct result (per text) that
+    # some thread obtained, and the result of a later sequential parse in that process, is judged against the fresh parse
+    cold = []
+    cold_only = [(c["text"], None if c.get("want") is None else [tuple(x) for x in c["want"]]) for c in (only or []) if c and c.get("mode") == "cold_start_threads"]
+    if not only or cold_only:
+        items = cold_only[:2] if cold_only else [(big_chart(rng, 300 if quick else 1000), None), texts[-1]]
+        fr2 = fresh(items)
+        for k, r in enumerate(cold_concurrent(items, 14 if cold_only or not quick else 4)):
+            for j, (text, want) in enumerate(items):
+                outs = ["(Err EOther)"] if r is None else sorted({row[j] or "(Err EOther)" for row in r["threads"]} | {r["after"][j]})
+                for o in outs:
+                    c = make(text, want, fr2[j], o, "cold_start_threads", pos)
+                    c["signature"] = "C17cold:%d:%d:" % (k, j) + key_of([text, o])
+                    cold.append(c)
+                    pos += 1
+    r = run_cases("C17", cases, IN_TYPE, PARSE_OUT, VERDICT, SPEC, shard_size=12)
+    if cold:
+        r = merge([r, run_cases("C17cold", cold, IN_TYPE, PARSE_OUT, VERDICT, SPEC, shard_size=2)])
+    return r
 
 
 def search(ctx, result):
